@@ -441,3 +441,8 @@ V('pg1-no-next', ['C07'], P,
 V('pg1-math-no-next', ['C07'], MP,
   "                if tok.txt in parms.math_text_macros:\n                    buf.next()\n                    out += parser.expand_sequence(\n                                        parser.arg_buffer(buf, tok.pos))\n                    continue",
   "                if tok.txt in parms.math_text_macros:\n                    out.append(defs.MathSpaceToken(tok.pos, ' '))\n                    continue", 'PG1')
+
+V('ix10-none-value', ['C07'], 'yalafi/packages/glossaries.py',
+  "    descr = parser.parse_keyvals_dict(args[1]).get('description') or []", "    descr = parser.parse_keyvals_dict(args[1]).get('description', [])", 'IX10')
+V('ix10-unbounded', ['C07'], 'yalafi/handlers.py',
+  "    if nargs > 9:\n", "    if nargs < 0:\n", 'IX10')
